@@ -42,7 +42,7 @@ pub const DEF: CheckDef = CheckDef {
 
 const VAR: &str = "UPDATE_GOLDEN";
 
-const CONTENTS: [&str; 12] = ["", "a", "a\n", "a\r\n", "a\r\nb\n", "b", "é\n", "a\r", "\r\n", "a\r\r\n", "日本\r\nb", "a\n\n"];
+const CONTENTS: [&str; 13] = ["", "a", "a\n", "a\r\n", "a\r\nb\n", "a\nb\r\n", "b", "é\n", "a\r", "\r\n", "a\r\r\n", "日本\r\nb", "a\n\n"];
 
 #[derive(Clone, Copy, PartialEq, Eq, PartialOrd, Ord, Debug)]
 enum Env {
@@ -458,7 +458,7 @@ fn run(ctx: &mut Ctx) {
     let mut serial = 0u64;
 
     // family A: BFS to the fixpoint with de-duplication on K
-    let alpha_a = Alphabet { nc: if thorough { CONTENTS.len() } else { 8 }, envs: ENVS.to_vec() };
+    let alpha_a = Alphabet { nc: if thorough { CONTENTS.len() } else { 9 }, envs: ENVS.to_vec() };
     let na = alpha_a.nactions();
     let mut depth_hist: BTreeMap<usize, u64> = BTreeMap::new();
     let b = bfs::bfs(
@@ -487,7 +487,7 @@ fn run(ctx: &mut Ctx) {
     let family_a_cases = serial;
 
     // family B: all raw sequences (no de-duplication) over the 7-content / 3-value alphabet
-    let alpha_b = Alphabet { nc: if thorough { 7 } else { 5 }, envs: vec![Env::Unset, Env::Empty, Env::One] };
+    let alpha_b = Alphabet { nc: if thorough { 8 } else { 6 }, envs: vec![Env::Unset, Env::Empty, Env::One] };
     let depth_b = if thorough { 5 } else { 4 };
     let nb = alpha_b.nactions();
     let mut stack: Vec<(Vec<Act>, St)> = vec![(vec![], init.clone())];
